@@ -14,6 +14,7 @@ FEATURES = {
 ALWAYS = ["editorconfig"]
 
 LOGICAL = [
+    "unable to prove",            # "unable to prove post-condition of closure": a closure contract (units lists, table, assign)
     "postcondition not satisfied", "precondition not satisfied", "invariant not satisfied",
     "assertion failed", "possible arithmetic underflow/overflow", "decreases not satisfied",
     "possible division by zero", "cannot show invariant holds", "loop invariant not satisfied",
@@ -297,7 +298,7 @@ def run_unit_once(unit, fs, seed=0, rlimit=None, keep=True, tag=""):
         low = msg.lower()
         if "rlimit" in low or "resource limit" in low or "timed out" in low or "timeout" in low:
             res["undecided"].append(entry); continue
-        if any(low.startswith(x) or x in low for x in LOGICAL[:14]) and d.get("code") is None:
+        if any(low.startswith(x) or x in low for x in LOGICAL[:15]) and d.get("code") is None:
             res["failures"].append(entry); continue
         res["compile_errors"].append(entry)
     if j:
